@@ -197,6 +197,10 @@ def eval_expr(e, scalars, atoms, env=None):
           txt.split('(')[0] in ('np.sqrt', 'numpy.sqrt', 'sqrt', 'math.sqrt'):
     v = eval_expr(e.args[0], scalars, atoms, env)
     return rat_sqrt(v) if isinstance(v, Rat) else None
+  if isinstance(e, ast.Call) and len(e.args) == 1 and not e.keywords and \
+          txt.split('(')[0] in ('np.square', 'numpy.square'):
+    v = eval_expr(e.args[0], scalars, atoms, env)
+    return v * v if isinstance(v, Rat) else None
   if isinstance(e, ast.BinOp):
     a = eval_expr(e.left, scalars, atoms, env)
     b = eval_expr(e.right, scalars, atoms, env)
